@@ -24,7 +24,7 @@ func init() {
 		ID: "C19",
 		Meta: func(tier string) fw.Meta {
 			return fw.Meta{
-				Flavours: []string{"plain", "cover"},
+				Flavours: []string{"plain", "cover", "386"},
 				Blocks:   16,
 				Procs:    16,
 				Rule: "(a) deterministic runs: buffer sizes 2..64 and a few large ones, streams whose number of distinct values is below, at and far above the size, every value repeated 1..4 times in interleaved order, Reset at random points; after EVERY Add: Count == exact number of distinct values while fewer than size distinct values have been added since creation/Reset, Len <= size, Count == Len * 2^j with j an integer that never decreases until Reset; after Reset: Len == 0, Count == 0 and the exact regime again. " +
